@@ -72,7 +72,10 @@ func main() {
 		os.Exit(2)
 	}
 	c.M.OnlyCase, c.M.OnlyLine = *onlyCase, *onlyLine
+	runningProp = prop
 	run(c)
+	recheckHeld()
+	c.M.flushHeldAlarms()
 	w.Flush()
 	if *stats != "" {
 		st.Write(*stats)
